@@ -155,7 +155,7 @@ fn gen_project(rng: &mut Rng, fenced: &BTreeSet<String>, builtins: &BTreeSet<Str
                 1 => text = text.replace('\n', "\r\n"),
                 2 => text = format!("# généré — {}\n\n\n{}", p, text),
                 3 => text.push_str(&format!("def {prefix}uni := \"naïve — 日本語 ✓\"\n")),
-                4 if i > 0 => text = String::new(),
+                4 if i > 0 || g.rng.chance(1, 3) => text = String::new(),
                 // a big file: source and output larger than the usual buffer sizes (8 KiB, 64 KiB,
                 // 128 KiB) — through a long string literal or a long leading doc string, which
                 // cost the checker nothing
